@@ -88,8 +88,11 @@ def scenarios(tier, seed):
             for style in C.STATE_STYLES:
                 k += 1
                 out.append(dict(family="gibbs/bn", mode="gibbs", kind="bn", nodes=nodes, parents=parents, card=card, states=style, names="str", hashseed=k % 2))
-    for mname in ["mchain3", "mtri", "mpair_unary"]:
-        nodes, scopes = MNS[mname]
+    # (msingle*: several variables whose ONLY factor is one shared factor; every Markov network is also sampled by a second sampler built from
+    # the same model object - building a sampler must not change the model)
+    mns = {**{m_: MNS[m_] for m_ in ["mchain3", "mtri", "mpair_unary"]}, "msingle2": (["A", "B"], [["A", "B"]]), "msingle3": (["A", "B", "C"], [["B", "A", "C"]])}
+    for mname in mns:
+        nodes, scopes = mns[mname]
         for card in C.card_options(nodes, tier)[:2]:
             card = {v: max(2, c) for v, c in card.items()}
             k += 1
@@ -150,6 +153,8 @@ def run_gibbs(desc, M):
         M.declare(mn_names(desc))
         model, u, _ = build_mn(desc, M, positive=True)
     g = GibbsSampling(model)
+    if desc["kind"] == "mn":
+        g = GibbsSampling(model)   # the second sampler built from the same model
     variables = [str(v) for v in g.variables]
     M.check(set(variables) == set(nodes), "Gibbs sampler covers the model's variables")
     for var in nodes:
